@@ -1,11 +1,383 @@
 import Driver.Json
+import OomdModel.Path
+import OomdModel.Detect
+import OomdModel.Generated.Consts
 
-/-! Driver glue for engine `detect` (stub: not built yet). -/
+/-! Driver glue for engine `h_detect` (C08).  Scenario + implementation trace in, verdict out.
+
+`accepts`: the trace is one the state-machine model (`OomdModel.Detect`) can produce.  The only
+nondeterminism is the iteration order of the resolved-cgroup set, which matters when several
+cgroups tie for the maximal weighted pressure score: the acceptor keeps the set of model states
+reachable under the observed verdicts (`C08.watched_pressure_sound/complete` show that trying the
+elements of `watchCands` is the same as trying every order).
+
+`holds`: the documented predicate of each detector evaluated declaratively over the whole history
+(index-quantified formulas over arrays, written here independently of the model's step functions;
+pattern resolution by the component-wise characterisation proved in `C16.resolve_exact`, not by the
+model's glob walk), on the implementation's verdicts.  Interpretation choices are listed at the top
+of `OomdProps/C08.lean`. -/
 namespace Driver.Detect
-open Lean
+open Lean OomdModel OomdModel.Detect
+
+abbrev Str := Path.Str
+
+/-- one cgroup directory of a tick, as the scenario describes it -/
+structure CgIn where
+  path : List Str
+  memP : Option P3
+  ioP : Option P3
+  cur : Option Nat
+  statAnon : Option Nat      -- memory.stat readable and has `anon`
+  statPgscan : Option Nat    -- memory.stat readable and has `pgscan`
+  dying : Option Nat         -- cgroup.stat readable (missing key reads as 0)
+deriving Inhabited
+
+structure TickIn where
+  clock : Nat
+  cgs : List CgIn
+  swTotal : Nat
+  swUsed : Nat
+  swRate : Int
+deriving Inhabited
+
+def comps (s : String) : List Str := Path.split s.toList '/'
+
+def p3Of (j : Json) : Option P3 :=
+  match j with
+  | Json.arr a => if a.size == 3 then some ⟨asNat a[0]!, asNat a[1]!, asNat a[2]!⟩ else none
+  | _ => none
+
+def cgOf (j : Json) : CgIn :=
+  let st := jobj j "stat"
+  let dy := jobj j "dying"
+  { path := comps (jstr j "path")
+    memP := p3Of (jobj j "mp")
+    ioP := p3Of (jobj j "iop")
+    cur := jnat? j "cur"
+    statAnon := if isNull st then none else jnat? st "anon"
+    statPgscan := if isNull st then none else jnat? st "pgscan"
+    dying := if isNull dy then none else some (if jbool j "dying_nokey" then 0 else asNat dy) }
+
+def tickOf (j : Json) : TickIn :=
+  let s := jobj j "sys"
+  { clock := jnat j "clock"
+    cgs := (jarr j "cgs").map cgOf
+    swTotal := jnat s "swaptotal"
+    swUsed := jnat s "swapused"
+    swRate := jint s "swapout_bps" }
+
+/-! ### which cgroups a tick's patterns resolve to -/
+
+def prefixesOf (p : List Str) : List (List Str) := (List.range (p.length + 1)).map (fun n => p.take n)
+
+def treeOf (tk : TickIn) : Path.Tree :=
+  { dirs := ([] :: tk.cgs.flatMap (fun c => prefixesOf c.path)).eraseDups, files := [] }
+
+def patternsOf (arg : String) : List Path.CgPath :=
+  (Path.split arg.toList ',').map (fun c => Path.mk [] c)
+
+/-- model: `resolveWildcard` per pattern (glob walk of `OomdModel.Path`) -/
+def resolveModel (tk : TickIn) (pats : List Path.CgPath) : List (List (List Str)) :=
+  let t := treeOf tk
+  pats.map (fun p => (Path.resolve t [] p).eraseDups)
+
+/-- oracle: a directory matches a pattern iff it has as many components and each component
+`fnmatch`es (patterns of the generator contain no `.` / `..`) -/
+def matchesPat (pat dir : List Str) : Bool :=
+  pat.length == dir.length && (List.zip pat dir).all (fun pd => Path.fnmatch pd.1 pd.2)
+
+def resolveOracle (tk : TickIn) (pats : List Path.CgPath) : List (List (List Str)) :=
+  let dirs := (treeOf tk).dirs
+  pats.map (fun p => dirs.filter (fun d => matchesPat p.parts d))
+
+def viewsOf (tk : TickIn) (resolved : List (List (List Str))) : List CgIn :=
+  (resolved.flatten.eraseDups).filterMap (fun p => tk.cgs.find? (fun c => c.path == p))
+
+/-! ### argument helpers -/
+
+def argInt (args : Json) (k : String) (dflt : Int) : Int :=
+  match jstr? args k with
+  | some s => (s.trimAscii.toString.toInt?).getD dflt
+  | none => dflt
+
+def argBool (args : Json) (k : String) (dflt : Bool) : Bool :=
+  match jstr? args k with
+  | some "true" | some "True" | some "1" => true
+  | some "false" | some "False" | some "0" => false
+  | _ => dflt
+
+/-- decimal string "d.ddd" → (mantissa, number of decimals) -/
+def parseDecimal (s : String) : Nat × Nat :=
+  match s.splitOn "." with
+  | [a] => (a.toNat?.getD 0, 0)
+  | [a, b] => ((a ++ b).toNat?.getD 0, b.length)
+  | _ => (0, 0)
+
+/-! ### nondeterministic acceptor -/
+
+/-- states reachable while reproducing the observed verdicts; also the index of the first tick at
+which no model state reproduces the observation -/
+def acceptND {σ : Type} [BEq σ] (opts : σ → Nat → List (σ × Bool)) (init : σ) (obs : List Bool) : Bool × Nat :=
+  let rec go (states : List σ) (i : Nat) : List Bool → Bool × Nat
+    | [] => (true, i)
+    | o :: rest =>
+      let next := (states.flatMap (fun st => ((opts st i).filter (fun r => r.2 == o)).map (·.1))).eraseDups
+      if next.isEmpty then (false, i) else go next (i + 1) rest
+  go [init] 0 obs
+
+/-- one model trace (first candidate at every tie), for display in replays -/
+def someTrace {σ : Type} (opts : σ → Nat → List (σ × Bool)) (init : σ) (n : Nat) : List Bool :=
+  let rec go (st : σ) (i : Nat) : Nat → List Bool
+    | 0 => []
+    | k + 1 =>
+      match opts st i with
+      | [] => []
+      | (st', v) :: _ => v :: go st' (i + 1) k
+  go init 0 n
+
+/-! ### declarative oracles over the whole history -/
+
+def nsI : Int := (NS : Int)
+
+/-- ∃ j ≤ n, (∀ k, j ≤ k ≤ n → ex k) ∧ dur·10⁹ ≤ t n − t j -/
+def docWindow (t : Array Nat) (ex : Array Bool) (dur : Int) (n : Nat) : Bool :=
+  (List.range (n + 1)).any fun j =>
+    ((List.range (n + 1)).all fun k => k < j || ex[k]!) && decide (dur * nsI ≤ (t[n]! : Int) - (t[j]! : Int))
+
+/-- all ways of picking one element per tick, capped -/
+def choiceCap : Nat := 512
+
+def choices {α : Type} : List (List α) → List (List α)
+  | [] => [[]]
+  | o :: rest => let tl := choices rest; (o.flatMap fun x => tl.map (x :: ·)).take (choiceCap + 1)
+
+def maxScoreO (l : List P3) : Nat := (l.map P3.score).foldl max 0
+
+/-- the possible watched pressures of a tick: the cgroups whose score is the largest, or the zero
+default when no score is positive -/
+def watchedO (l : List P3) : List P3 :=
+  let m := maxScoreO l
+  if m == 0 then [P3.zero] else (l.filter (fun p => p.score == m)).eraseDups
+
+def boolsJ (l : List Bool) : Json := Json.arr (l.map Json.bool).toArray
+
+structure Out where
+  accepts : Bool
+  holds : Bool
+  violated : List String
+  cls : String
+  extra : List (String × Json)
+
+def mkOut (det : String) (acc : Bool × Nat) (model : List Bool) (badTicks : List Nat) (clause : String)
+    (cls : String := "") (notes : List (String × Json) := []) : Out :=
+  { accepts := acc.1
+    holds := badTicks.isEmpty
+    violated := if badTicks.isEmpty then [] else [det ++ "." ++ clause]
+    cls := if badTicks.isEmpty then "" else (if cls.isEmpty then det ++ "." ++ clause else cls)
+    extra := [("model", boolsJ model), ("model_first_bad_tick", if acc.1 then Json.null else Json.num (JsonNumber.fromNat acc.2)),
+              ("holds_bad_ticks", Json.arr (badTicks.map (fun n => Json.num (JsonNumber.fromNat n))).toArray)] ++ notes }
+
+/-- evaluate a per-choice-sequence oracle over all choice sequences; `ok w n` says whether the
+observed verdict of tick `n` is allowed when the watched values are `w`.  Returns the bad ticks of
+the best choice sequence (empty = some sequence explains every verdict). -/
+def bestChoice {α : Type} (opts : List (List α)) (nTicks : Nat) (ok : Array α → Nat → Bool) [Inhabited α] :
+    Option (List Nat) :=
+  let cs := choices opts
+  if cs.length > choiceCap then none else
+  let bads := cs.map fun w =>
+    let wa := w.toArray
+    (List.range nTicks).filter fun n => !ok wa n
+  some ((bads.foldl (fun best b => match best with
+    | none => some b
+    | some b0 => if b.length < b0.length then some b else some b0) none).getD [])
+
+/-! ### the seven detectors -/
+
+def resPressure (args : Json) (c : CgIn) : P3 :=
+  (if jstr args "resource" == "io" then c.ioP else c.memP).getD P3.zero
+
+instance : Inhabited P3 := ⟨P3.zero⟩
+
+/-- an iteration order under which the selection loop of the model ends with the candidate `w`
+(`watchP (candList w) = w`): the model's step functions are run on it -/
+def candList (w : P3) : List P3 := if w == P3.zero then [] else [w]
+
+def doPressureAbove (args : Json) (ticks : List TickIn) (obs : List Bool) : Out :=
+  let thr := argInt args "threshold" 0
+  let dur := argInt args "duration" 0
+  let pats := patternsOf (jstr args "cgroup")
+  let ta := ticks.toArray
+  -- model
+  let cg := fun (i : Nat) => (viewsOf ta[i]! (resolveModel ta[i]! pats)).map (resPressure args)
+  let opts := fun (hit : Nat) (i : Nat) =>
+    (watchCands (cg i)).eraseDups.map fun w => pressureAboveStep thr dur hit ta[i]!.clock (candList w)
+  let acc := acceptND opts 0 obs
+  -- oracle
+  let t := (ticks.map (·.clock)).toArray
+  let oa := obs.toArray
+  let exOpts := ticks.map fun tk =>
+    ((watchedO ((viewsOf tk (resolveOracle tk pats)).map (resPressure args))).map
+      (fun w => decide (100 * thr < (w.s10 : Int)))).eraseDups
+  match bestChoice exOpts ticks.length (fun ex n => oa[n]! == docWindow t ex dur n) with
+  | some bad => mkOut "pressure_above" acc (someTrace opts 0 ticks.length) bad "window"
+  | none => mkOut "pressure_above" acc (someTrace opts 0 ticks.length) (if acc.1 then [] else [acc.2]) "window" ""
+      [("tie_overflow", Json.bool true)]
+
+def usageOf (anon : Bool) (c : CgIn) : Nat := (if anon then c.statAnon else c.cur).getD 0
+
+def doMemoryAbove (sc args : Json) (ticks : List TickIn) (obs : List Bool) : Out :=
+  let anon := jhas args "threshold_anon"
+  let thrS := if anon then jstr args "threshold_anon" else jstr args "threshold"
+  let memTotal := jnat sc "memtotal_kb" * 1024
+  match parseThreshold thrS memTotal with
+  | none => { accepts := false, holds := true, violated := [], cls := "", extra := [("error", Json.str ("threshold outside the modelled grammar: " ++ thrS))] }
+  | some thr =>
+  let dur := argInt args "duration" 0
+  let pats := patternsOf (jstr args "cgroup")
+  let ta := ticks.toArray
+  let opts := fun (hit : Nat) (i : Nat) =>
+    [memoryAboveStep thr dur hit ta[i]!.clock ((viewsOf ta[i]! (resolveModel ta[i]! pats)).map (usageOf anon))]
+  let acc := acceptND opts 0 obs
+  let t := (ticks.map (·.clock)).toArray
+  let oa := obs.toArray
+  let ex := (ticks.map fun tk =>
+    let us := (viewsOf tk (resolveOracle tk pats)).map (usageOf anon)
+    decide (thr < ((us.foldl max 0 : Nat) : Int))).toArray
+  let bad := (List.range ticks.length).filter fun n => oa[n]! != docWindow t ex dur n
+  mkOut "memory_above" acc (someTrace opts 0 ticks.length) bad "window" ""
+    [("threshold_bytes", Json.num (JsonNumber.fromInt thr))]
+
+/-- (watched 60 s exceeds, watched 10 s value) -/
+abbrev RiseObs := Bool × Nat
+
+def doRising (args : Json) (ticks : List TickIn) (obs : List Bool) : Out :=
+  let thr := argInt args "threshold" 0
+  let dur := argInt args "duration" 0
+  let (mant, decs) := parseDecimal ((jstr? args "fast_fall_ratio").getD OomdModel.Generated.detectRisingDefFastFallRatio)
+  let pats := patternsOf (jstr args "cgroup")
+  let ta := ticks.toArray
+  let cg := fun (i : Nat) => (viewsOf ta[i]! (resolveModel ta[i]! pats)).map (resPressure args)
+  let opts := fun (st : RiseSt) (i : Nat) =>
+    (watchCands (cg i)).eraseDups.map fun w =>
+      risingStep (fallingF32 mant decs) thr dur st ta[i]!.clock (candList w)
+  let acc := acceptND opts RiseSt.init obs
+  -- oracle
+  let t := (ticks.map (·.clock)).toArray
+  let oa := obs.toArray
+  let den := 10 ^ decs
+  let wOpts : List (List RiseObs) := ticks.map fun tk =>
+    ((watchedO ((viewsOf tk (resolveOracle tk pats)).map (resPressure args))).map
+      (fun w => (decide (100 * thr < (w.s60 : Int)), w.s10))).eraseDups
+  let ok := fun (w : Array RiseObs) (n : Nat) =>
+    let win := docWindow t (w.map (·.1)) dur n
+    let above := decide (100 * thr < ((w[n]!).2 : Int))
+    if !(win && above) then oa[n]! == false
+    else if n == 0 then true      -- no previous sample: the text does not decide the fall test
+    else
+      let lhs := (w[n]!).2 * den
+      let rhs := (w[n - 1]!).2 * mant
+      let diff := if lhs < rhs then rhs - lhs else lhs - rhs
+      if diff * 100000 ≤ max lhs rhs then true     -- inside the float rounding margin
+      else oa[n]! == !(decide (lhs < rhs))
+  match bestChoice wOpts ticks.length ok with
+  | some bad => mkOut "pressure_rising_beyond" acc (someTrace opts RiseSt.init ticks.length) bad "rising"
+  | none => mkOut "pressure_rising_beyond" acc (someTrace opts RiseSt.init ticks.length) (if acc.1 then [] else [acc.2]) "rising" ""
+      [("tie_overflow", Json.bool true)]
+
+def doReclaim (args : Json) (ticks : List TickIn) (obs : List Bool) : Out :=
+  let dur := argInt args "duration" 0
+  let pats := patternsOf (jstr args "cgroup")
+  let ta := ticks.toArray
+  let opts := fun (st : RecSt) (i : Nat) =>
+    [reclaimStep dur st ta[i]!.clock ((viewsOf ta[i]! (resolveModel ta[i]! pats)).filterMap (·.statPgscan))]
+  let acc := acceptND opts RecSt.init obs
+  let t := (ticks.map (·.clock)).toArray
+  let oa := obs.toArray
+  let sums := (ticks.map fun tk => ((viewsOf tk (resolveOracle tk pats)).filterMap (·.statPgscan)).sum).toArray
+  let grew := fun (j : Nat) => decide ((if j == 0 then 0 else sums[j - 1]!) < sums[j]!)
+  let must := fun (n : Nat) => (List.range (n + 1)).any fun j =>
+    grew j && decide ((t[n]! : Int) - (t[j]! : Int) ≤ dur * nsI)
+  let may := fun (n : Nat) => (List.range (n + 1)).any fun j =>
+    grew j && decide ((t[n]! : Int) - (t[j]! : Int) < (dur + 1) * nsI)
+  let bad := (List.range ticks.length).filter fun n => (must n && !oa[n]!) || (oa[n]! && !may n)
+  let neverGrew := bad.any fun n => !((List.range (n + 1)).any grew)
+  mkOut "memory_reclaim" acc (someTrace opts RecSt.init ticks.length) bad "recent_growth"
+    (if neverGrew then "memory_reclaim.never-grew" else "")
+
+def doSwapFree (args : Json) (ticks : List TickIn) (obs : List Bool) : Out :=
+  let pct := argInt args "threshold_pct" 0
+  let bps := argInt args "swapout_bps_threshold" 0
+  let ta := ticks.toArray
+  let opts := fun (_ : Unit) (i : Nat) => [((), swapFreeVerdict pct bps ta[i]!.swTotal ta[i]!.swUsed ta[i]!.swRate)]
+  let acc := acceptND opts () obs
+  let oa := obs.toArray
+  -- domain on which the text's exact percentage is what the code computes (C08.swap_free_iff)
+  let inDom := fun (tk : TickIn) => tk.swTotal % 1024 == 0 && tk.swUsed % 1024 == 0 && tk.swUsed ≤ tk.swTotal &&
+    decide (0 ≤ pct) && tk.swTotal * pct.toNat < 2 ^ 64
+  let bad := (List.range ticks.length).filter fun n =>
+    let tk := ta[n]!
+    inDom tk && (oa[n]! != (decide ((tk.swTotal - tk.swUsed) * 100 < tk.swTotal * pct.toNat) && decide (bps ≤ tk.swRate)))
+  mkOut "swap_free" acc (someTrace opts () ticks.length) bad "instant" ""
+    [("outside_domain", Json.num (JsonNumber.fromNat (ticks.filter (fun tk => !inDom tk)).length))]
+
+def doExists (args : Json) (ticks : List TickIn) (obs : List Bool) : Out :=
+  let neg := argBool args "negate" false
+  let pats := patternsOf (jstr args "cgroup")
+  let ta := ticks.toArray
+  let opts := fun (_ : Unit) (i : Nat) => [((), existsVerdict neg (resolveModel ta[i]! pats))]
+  let acc := acceptND opts () obs
+  let oa := obs.toArray
+  let bad := (List.range ticks.length).filter fun n =>
+    let some_ := (resolveOracle ta[n]! pats).any (fun r => !r.isEmpty)
+    oa[n]! != (if neg then !some_ else some_)
+  mkOut "exists" acc (someTrace opts () ticks.length) bad "instant"
+
+def doDying (args : Json) (ticks : List TickIn) (obs : List Bool) : Out :=
+  let lte := argBool args "lte" true
+  let count := argInt args "count" 0
+  let pats := patternsOf (jstr args "cgroup")
+  let ta := ticks.toArray
+  let opts := fun (_ : Unit) (i : Nat) =>
+    [((), dyingVerdict lte count ((viewsOf ta[i]! (resolveModel ta[i]! pats)).filterMap (·.dying)))]
+  let acc := acceptND opts () obs
+  let oa := obs.toArray
+  let bad := (List.range ticks.length).filter fun n =>
+    let nrs := (viewsOf ta[n]! (resolveOracle ta[n]! pats)).filterMap (·.dying)
+    oa[n]! != nrs.any (fun k => if lte then decide ((k : Int) ≤ count) else decide (count < (k : Int)))
+  mkOut "nr_dying_descendants" acc (someTrace opts () ticks.length) bad "instant"
 
 def handle (j : Json) : Json :=
-  Json.mkObj [("id", Json.str (jstr (jobj j "s") "id")), ("error", Json.str "engine detect not implemented")]
+  let sc := jobj j "s"
+  let tr := jobj j "t"
+  let id := jstr sc "id"
+  let det := jstr sc "det"
+  let args := jobj sc "args"
+  let ticks := (jarr sc "ticks").map tickOf
+  if jstr tr "outcome" != "ok" then
+    -- crash / exception / rejected configuration: reported through the outcome by the check runner
+    verdict id false true [] ("outcome:" ++ jstr tr "outcome")
+  else
+  let rets := jstrs tr "rets"
+  if rets.length != ticks.length || rets.any (fun r => r != "CONTINUE" && r != "STOP") then
+    verdict id false false [det ++ ".verdict_domain"] (det ++ ".verdict_domain")
+  else
+  let obs := rets.map (· == "CONTINUE")
+  let out? : Option Out :=
+    match det with
+    | "pressure_above" => some (doPressureAbove args ticks obs)
+    | "memory_above" => some (doMemoryAbove sc args ticks obs)
+    | "pressure_rising_beyond" => some (doRising args ticks obs)
+    | "memory_reclaim" => some (doReclaim args ticks obs)
+    | "swap_free" => some (doSwapFree args ticks obs)
+    | "exists" => some (doExists args ticks obs)
+    | "nr_dying_descendants" => some (doDying args ticks obs)
+    | _ => none
+  match out? with
+  | none => Json.mkObj [("id", Json.str id), ("error", Json.str ("unknown detector " ++ det))]
+  | some o =>
+    match o.extra.find? (fun e => e.1 == "error") with
+    | some (_, e) => Json.mkObj [("id", Json.str id), ("error", e)]
+    | none => verdict id o.accepts o.holds o.violated o.cls o.extra
 
 end Driver.Detect
 
